@@ -17,6 +17,16 @@ def ruleX : Cls → Rule
   | .access => { mints := [.access, .refresh], expiresIn := 3600 }
   | c => ruleA c
 
+/-- the per-client rules of the harness variant "c1rules": client_1 registers
+    {refresh_token: {supports_minting: [access_token]}, access_token: {expires_in: 600}} -/
+def ovC1 : Str → Cls → Option RuleOv := fun c cls =>
+  if c == lit "client_1" then
+    match cls with
+    | .refresh => some { mints := some [.access], expiresIn := none }
+    | .access => some { mints := none, expiresIn := some 600 }
+    | _ => none
+  else none
+
 structure DS where
   cfg : Cfg := { oidc := true, jwt := false, rule := ruleA, revokeRefreshOnIssue := false, allowed := fun _ => [], grantExpiresIn := 43200, authnExpiresIn := 3600 }
   st : St := {}
@@ -89,6 +99,7 @@ def stepLine (d : DS) (args : List String) : DS × String :=
     | none => (d, "bad-op")
     | some l =>
       ({ cfg := { oidc := oidc = "1", jwt := jwt = "1", rule := (if usage = ["x"] then ruleX else ruleA), revokeRefreshOnIssue := false,
+                  clientOv := (if usage = ["c1"] then ovC1 else fun _ _ => none),
                   allowed := parseAllowed l, grantExpiresIn := 43200, authnExpiresIn := 3600,
                   -- harness configuration: client_1 back-channel, client_2 front-channel, client_3 no logout URI
                   logoutUri := fun c => c == lit "client_1" || c == lit "client_2" }, st := {} }, "ok")
